@@ -43,6 +43,12 @@ ASSUMPTIONS = [
     "paused-clock scenarios (current_thread runtime, tokio time paused, data source sleeping virtual milliseconds to "
     "hours between items, days in total) are judged on the dataset-consumption clauses; HistoricalClock reads the real "
     "Utc::now there, which only stamps",
+    "a failing data source is a harness BacktestMarketData whose stream panics after k of n items (paused-clock family); "
+    "judged: the run returns no summary (an error), the engine saw exactly those k items in order, healthy runs joined "
+    "beside it through one backtest() per run return complete summaries; what run_backtests (try_join_all) does with "
+    "the other runs of a batch when one fails - it returns that error and drops them - is not part of the property",
+    "datasets contain late ticks (exchange time 30 s to a day older than the predecessor's); no order is opened on a late "
+    "tick (the order stamp would be the clock's, not the tick's)",
     "the fatal-error path (engine stops on an unrecoverable execution-link error) is model-checked in the specification "
     "but not driven in the implementation: the property exempts it",
 ]
@@ -63,6 +69,12 @@ CFG = TRACE + ".cfg"
 # ------------------------------------------------------------------------------- model checking
 NO_DISC = ("StepDisc",)          # configurations whose dataset has no Reconnecting item
 NO_SD = ("StepShutdown",)        # single-run configuration that always stops on its fatal error
+FAILS = ("StepShutdown", "SendShutdown", "EngineShutdown")    # single run whose data source always fails
+
+
+def ign(cfg, ignore):
+    """the data source fails only in the *srcfail* configurations"""
+    return tuple(ignore) + (() if "srcfail" in cfg else ("SourceFails",))
 
 
 def product_check(ctx, whole, parts, coverage=False):
@@ -71,10 +83,10 @@ def product_check(ctx, whole, parts, coverage=False):
     whole / parts: (cfg, actions that cannot occur in it)."""
     sizes = []
     for cfg, ignore in parts:
-        r = ctx.tlc_mc("MC_" + MODULE, cfg, timeout=900, ignore_uncovered=ignore)
+        r = ctx.tlc_mc("MC_" + MODULE, cfg, timeout=900, ignore_uncovered=ign(cfg, ignore))
         sizes.append(r["distinct_states"])
     cfg, ignore = whole
-    r = ctx.tlc_mc("MC_" + MODULE, cfg, timeout=1700, coverage=coverage, ignore_uncovered=ignore)
+    r = ctx.tlc_mc("MC_" + MODULE, cfg, timeout=1700, coverage=coverage, ignore_uncovered=ign(cfg, ignore))
     want = sizes[0] * sizes[1]
     if r["distinct_states"] != want:
         raise vlib.ToolError("spec-level isolation failure: %s has %d distinct states, the single-run spaces %s give %d"
@@ -86,15 +98,23 @@ def product_check(ctx, whole, parts, coverage=False):
 def model_check(ctx):
     product_check(ctx, ("MC_Backtest.cfg", NO_DISC), [("MC_Backtest_r1.cfg", NO_DISC), ("MC_Backtest_r2.cfg", NO_DISC)])
     product_check(ctx, ("MC_Backtest_faults.cfg", ()), [("MC_Backtest_faults_r1.cfg", NO_SD), ("MC_Backtest_faults_r2.cfg", ())])
-    ctx.tlc_mc("MC_" + MODULE, "MC_Backtest_live.cfg", timeout=600, ignore_uncovered=NO_DISC)
-    ctx.tlc_mc("MC_" + MODULE, "MC_Backtest_live_fatal.cfg", timeout=600, ignore_uncovered=NO_SD)
+    # a run whose data source fails (after 2 of 3 items) beside a healthy one
+    product_check(ctx, ("MC_Backtest_srcfail.cfg", NO_DISC), [("MC_Backtest_srcfail_r1.cfg", NO_DISC + FAILS),
+                                                               ("MC_Backtest_srcfail_r2.cfg", NO_DISC + ("SourceFails",))])
+    for cfg, ignore in (("MC_Backtest_live.cfg", NO_DISC), ("MC_Backtest_live_fatal.cfg", NO_SD),
+                        ("MC_Backtest_live_srcfail.cfg", NO_DISC + FAILS)):
+        ctx.tlc_mc("MC_" + MODULE, cfg, timeout=600, ignore_uncovered=ign(cfg, ignore))
     if not ctx.quick:
         product_check(ctx, ("MC_Backtest_thorough.cfg", NO_DISC),
                       [("MC_Backtest_thorough_r1.cfg", NO_DISC), ("MC_Backtest_thorough_r2.cfg", NO_DISC)], coverage=False)
         product_check(ctx, ("MC_Backtest_deep.cfg", ()), [("MC_Backtest_deep_r1.cfg", ()), ("MC_Backtest_deep_r2.cfg", ())], coverage=False)
         product_check(ctx, ("MC_Backtest_full.cfg", ()), [("MC_Backtest_full_r1.cfg", NO_SD), ("MC_Backtest_full_r2.cfg", ())], coverage=False)
-        ctx.tlc_mc("MC_" + MODULE, "MC_Backtest_full_r3.cfg", timeout=900, ignore_uncovered=NO_DISC)
-        ctx.tlc_mc("MC_" + MODULE, "MC_Backtest_full_r4.cfg", timeout=900, ignore_uncovered=NO_SD)
+        ctx.tlc_mc("MC_" + MODULE, "MC_Backtest_full_r3.cfg", timeout=900, ignore_uncovered=ign("", NO_DISC))
+        ctx.tlc_mc("MC_" + MODULE, "MC_Backtest_full_r4.cfg", timeout=900, ignore_uncovered=ign("", NO_SD))
+        # the source fails before its first item (a Reconnecting item in the dataset) beside a run with two orders
+        product_check(ctx, ("MC_Backtest_srcfail2.cfg", ()), [
+            ("MC_Backtest_srcfail2_r1.cfg", NO_DISC + FAILS + ("Forward", "StepMarket")),
+            ("MC_Backtest_srcfail2_r2.cfg", NO_DISC + ("SourceFails",))], coverage=False)
 
 
 # ------------------------------------------------------------------------------- scenarios
@@ -217,8 +237,8 @@ def judge(ctx, scns, trace_path, results_path, expected, label):
         s = by_name[scn]
         stats["max_concurrent"] = max(stats["max_concurrent"], len(rs))
         stats["max_workers"] = max(stats["max_workers"], s["workers"])
-        if rs[0]["status"] != "ok":
-            continue
+        if all(r["status"] != "ok" for r in rs) and not rs[0]["scenario_has_failing_source"]:
+            continue            # (reported above from the Abort lines)
         if rs[0]["extra_streams"]:
             raise vlib.ToolError("scenario %s: stream() was called more often than there are runs" % scn)
         if any(r["account_reconnects"] for r in rs):
@@ -238,6 +258,27 @@ def judge(ctx, scns, trace_path, results_path, expected, label):
             stats["account_events"] += r["account_events"]
             stats["order_response_timeouts"] += r["order_response_timeouts"]
             who = "run %s/%d (%s, K=%d, %d workers)" % (scn, r["run"], r["mode"], r["k"], r["workers"])
+            if r["late_items"]:
+                stats["runs_over_datasets_with_late_ticks"] = stats.get("runs_over_datasets_with_late_ticks", 0) + 1
+            # a data source that fails part way: the run must end WITHOUT a summary
+            if r["source_fails_after"] is not None:
+                stats["runs_with_failing_source"] = stats.get("runs_with_failing_source", 0) + 1
+                if r["status"] == "ok":
+                    ctx.violation("summary:%s:made-after-source-failure" % r["mode"],
+                                  "%s (%s): the market data source failed after %d of %d items, yet a summary was returned (the engine "
+                                  "saw %d items)" % (who, r["api"], r["source_fails_after"], r["n"], r["consumed"]), replay_of([scn]))
+                elif "%s/%d" % (scn, r["run"]) not in seen_runs and r["consumed"] == r["source_fails_after"]:
+                    stats["source_failures_ending_in_an_error"] = stats.get("source_failures_ending_in_an_error", 0) + 1
+                continue
+            if r["status"] != "ok":
+                # (healthy run of a run_backtests batch that returned the failing run's error: by
+                #  try_join_all no summary at all is returned - nothing to judge beyond the prefix
+                #  validated above; with one backtest() per run a healthy run must return its summary:
+                #  the harness wrote an Abort line for it, reported above)
+                stats["runs_cut_by_a_batch_error"] = stats.get("runs_cut_by_a_batch_error", 0) + 1
+                continue
+            if r["scenario_has_failing_source"]:
+                stats["healthy_runs_beside_a_failing_one"] = stats.get("healthy_runs_beside_a_failing_one", 0) + 1
             if r["consumed"] != r["n"]:
                 ctx.violation("consumed:%s:incomplete" % r["mode"], "%s: the engine processed %d of the %d dataset items before "
                               "the backtest returned" % (who, r["consumed"], r["n"]), replay_of([scn]))
@@ -347,7 +388,7 @@ def diff(a, b, path=""):
 def synthetic_run():
     """A well-formed observation log (what a correct run of n=12, orders on events 3 and 7 looks like)."""
     def L(a, **kw):
-        d = {"a": a, "id": 0, "tag": 0, "kind": "-", "k": 0, "sent": [], "nc": 0, "na": 0, "n": 0, "recs": [], "acts": [], "sumok": True,
+        d = {"a": a, "id": 0, "tag": 0, "kind": "-", "k": 0, "sent": [], "nc": 0, "na": 0, "n": 0, "recs": [], "acts": [], "fail": [], "sumok": True,
              "tsk": 0, "ck": False, "ts_ms": 0}
         d.update(kw)
         return d
@@ -379,6 +420,14 @@ def binding_bites(ctx):
     def copy():
         return [dict(l) for l in seg]
     muts = [("nothing (the original)", copy(), None)]
+    # a run whose data source fails after 8 items: the log of those 8 items then `Fail` is a behaviour ...
+    m = copy(); cut = next(j for j, l in enumerate(m) if l["a"] == "Market" and l["id"] == 9)
+    failing = m[:cut] + [dict(m[-1], a="Fail", nc=8, na=m[cut - 1]["na"], sent=[])]
+    failing[0] = dict(failing[0], fail=[8])
+    muts.append(("nothing (the log of a run whose source fails, ending in the error)", [dict(l) for l in failing], None))
+    # ... but a summary (End) after the failure is not, nor is the error anywhere else
+    m = [dict(l) for l in failing]; m[-1] = dict(m[-1], a="End", sent=[3, 7]); muts.append(("a summary although the data source failed", m, "shutdown-before-dataset-consumed"))
+    m = [dict(l) for l in failing]; m[0] = dict(m[0], fail=[10]); muts.append(("the error of a source failure the engine saw too little of", m, "error-not-at-the-source-failure"))
     m = copy(); del m[markets[len(markets) // 2]]; muts.append(("a market event never reached the engine", m, "skipped-item"))
     m = copy(); j = markets[len(markets) // 2]; m.insert(j + 1, dict(m[j])); muts.append(("a market event reached the engine twice", m, "repeated-item"))
     m = copy(); a, b = markets[2], markets[3]; m[a], m[b] = m[b], m[a]; muts.append(("two market events swapped", m, "skipped-item"))
@@ -408,8 +457,9 @@ def binding_bites(ctx):
         if tag not in tags:
             raise vlib.ToolError("self-test: corrupted trace (%s) was not rejected as %s (rejections: %s)" % (what, tag, sorted(tags)))
         caught.append(what)
+    caught_n = len(caught)
     ctx.cov["corrupted_traces_rejected"] = caught
-    vlib.log("self-test: %d corrupted copies of a well-formed run log rejected by Trace_Backtest (the original accepted)" % len(caught))
+    vlib.log("self-test: %d corrupted copies of well-formed run logs rejected by Trace_Backtest (the originals accepted)" % len(caught))
 
 
 # ------------------------------------------------------------------------------- entry points
@@ -444,6 +494,9 @@ def check(ctx):
         dict(s, runs=s["runs"][:2]) for s in scns_r if s["mode"] == "gated" and len(s["runs"]) > 1)})
     run_all(ctx, scns_r, {}, "seeded")
     st = ctx.cov["implementation_runs"]
+    if not ctx.violations and (not st.get("source_failures_ending_in_an_error") or not st.get("healthy_runs_beside_a_failing_one")
+                               or not st.get("runs_over_datasets_with_late_ticks")):
+        raise vlib.ToolError("vacuous run: %s" % st)
     if not ctx.violations and (st["fills"] == 0 or st["runs_with_closed_positions"] == 0 or st["gated_runs_compared_with_alone"] == 0 or st["tlc_outcomes_matched"] == 0):
         raise vlib.ToolError("vacuous run: %s" % st)
     return ctx.finish()
